@@ -1,2 +1,3 @@
 pub mod c05;
+pub mod c08;
 pub mod c13;
